@@ -16,7 +16,12 @@
        SWait     `future.result()` blocks until the future is FINISHED, then raises
                  `_exception` if set, else returns the (stdout, stderr, returncode) tuple
    worker j     (PopenFuture.start.run)
-       WStarted  `self.process = Popen(...)`            (may raise: process stays None)
+       WStarted  `with self._spawn_lock:` + `if self._cancel_requested: raise ShutdownError()`
+                 (label LSpawnEnter: the worker now HOLDS the job's spawn lock, or -- cancel was
+                 requested -- the ShutdownError is stored by `except Exception` and the worker goes
+                 on to its finally block without ever spawning)
+       WSpawn    `self.process = Popen(...)`            (may raise: process stays None); leaving
+                 the `with` releases the spawn lock
        WComm     `self.process.communicate(timeout=self.timeout)` returns / raises
                  TimeoutExpired / raises something else
        WFinally  `if self.process: self.cancel()`       (kills the process if running)
@@ -31,7 +36,10 @@
                  and re-raises its `_exception` (TimeoutExpired, a Popen error), which is
                  suppressed -- every future of the snapshot is waited for, shutdown() never
                  raises (label LSdRaise is never enabled)
-   PopenFuture.cancel(): `if not self.is_running(): return` -- a no-op while
+   PopenFuture.cancel(): first `with self._spawn_lock: self._cancel_requested = True` -- it
+   waits while the worker is between its test and the end of Popen (LSdCancel is not enabled
+   while the worker holds the spawn lock), so afterwards either the process exists or the worker
+   will not spawn it; the lock is released at once.  Then `if not self.is_running(): return` -- a no-op while
    `self.process is None` or after the process has terminated; otherwise the escalation
    terminate() (SIGTERM) -> `<parent>.wait(timeout=0.5)` -> kill() (SIGKILL) if still running.
    A solver process may ignore SIGTERM ([stub], a job parameter): then the grace-period wait
@@ -48,7 +56,7 @@ Inductive exn := ETimeout | EOther.
 Inductive proc_t := PNone | PRun | PDead.   (* self.process: None / running / terminated *)
 Inductive spc_t := SCheck | SAcquire | SRecheck | SAppend | SStart | SRelease | SWait
                  | SGot (v : verdict) | SUnlock | SRejected.
-Inductive wpc_t := WNew | WStarted | WComm | WFinally | WSetRes | WDone
+Inductive wpc_t := WNew | WStarted | WSpawn | WComm | WFinally | WSetRes | WDone
                  | WDead.   (* the worker thread died with an exception before set_result *)
 Inductive dpc_t := DSet | DAcquire | DCancel (pending : list nat) | DSnap
                  | DUnlock (pending : list nat) | DJoin (pending : list nat) | DDone.
@@ -62,7 +70,9 @@ Record job := mkJob {
   proc : proc_t;          (* self.process *)
   exc : option exn;       (* self._exception *)
   out : option answer;    (* self.stdout (first line) *)
-  sets : nat              (* number of set_result calls on the future *)
+  sets : nat;             (* number of set_result calls on the future *)
+  creq : bool;            (* self._cancel_requested *)
+  slock : bool            (* self._spawn_lock is held (by the worker, between LSpawnEnter and LPopen) *)
 }.
 
 Record sd := mkSd { swait : bool; dpc : dpc_t }.
@@ -75,7 +85,7 @@ Record state := mkState {
   sds : list sd
 }.
 
-Definition init_job (c : bool * bool) : job := mkJob (fst c) (snd c) SCheck WNew PNone None None 0.
+Definition init_job (c : bool * bool) : job := mkJob (fst c) (snd c) SCheck WNew PNone None None 0 false false.
 Definition init_sd (w : bool) : sd := mkSd w DSet.
 Definition init (cfgs : list (bool * bool)) (waits : list bool) : state :=
   mkState false None [] (map init_job cfgs) (map init_sd waits).
@@ -97,9 +107,13 @@ Definition low_level (jb : job) : verdict :=
 
 (* ---- setters ---------------------------------------------------------------- *)
 Definition set_spc (jb : job) (p : spc_t) : job :=
-  mkJob (tmo jb) (stub jb) p (wpc jb) (proc jb) (exc jb) (out jb) (sets jb).
+  mkJob (tmo jb) (stub jb) p (wpc jb) (proc jb) (exc jb) (out jb) (sets jb) (creq jb) (slock jb).
 Definition set_w (jb : job) (w : wpc_t) (p : proc_t) (e : option exn) (o : option answer) (n : nat) : job :=
-  mkJob (tmo jb) (stub jb) (spc jb) w p e o n.
+  mkJob (tmo jb) (stub jb) (spc jb) w p e o n (creq jb) (slock jb).
+Definition set_slock (jb : job) (b : bool) : job :=
+  mkJob (tmo jb) (stub jb) (spc jb) (wpc jb) (proc jb) (exc jb) (out jb) (sets jb) (creq jb) b.
+Definition set_creq (jb : job) : job :=
+  mkJob (tmo jb) (stub jb) (spc jb) (wpc jb) (proc jb) (exc jb) (out jb) (sets jb) true (slock jb).
 
 (* ---- PopenFuture.cancel() ------------------------------------------------------
    the exception of the grace-period wait on a process that ignored SIGTERM *)
@@ -117,9 +131,15 @@ Definition kill_raises (jb : job) : bool :=
 Definition kill (jb : job) : job :=      (* the effect of PopenFuture.cancel() on the process *)
   match proc jb with
   | PRun => if survives jb then jb
-            else mkJob (tmo jb) (stub jb) (spc jb) (wpc jb) PDead (exc jb) (out jb) (sets jb)
+            else mkJob (tmo jb) (stub jb) (spc jb) (wpc jb) PDead (exc jb) (out jb) (sets jb) (creq jb) (slock jb)
   | _ => jb
   end.
+(* PopenFuture.cancel() as a whole: record the request (under the spawn lock), then the escalation *)
+Definition cancel (jb : job) : job := kill (set_creq jb).
+(* the worker's finally block: `if self.process: self.cancel()` *)
+Definition fin (jb : job) : job := match proc jb with PNone => jb | _ => cancel jb end.
+(* run(): the ShutdownError raised when a cancel was requested before the spawn is stored by an except clause *)
+Definition refusal_caught : bool := catches gen_run_handlers gen_refusal_exn.
 (* run(): `except ...: self._exception = e` around communicate() *)
 Definition timeout_caught : bool := catches gen_run_handlers communicate_timeout_exn.
 
@@ -214,8 +234,15 @@ Definition step (st : state) (l : label) : option state :=
         | _ => None end)
   | LPopen j ok =>
       on_job st j (fun jb => match wpc jb with
-        | WStarted => if ok then Some (set_w jb WComm PRun (exc jb) (out jb) (sets jb))
-                      else Some (set_w jb WFinally (proc jb) (Some EOther) (out jb) (sets jb))
+        | WSpawn => if ok then Some (set_slock (set_w jb WComm PRun (exc jb) (out jb) (sets jb)) false)
+                    else Some (set_slock (set_w jb WFinally (proc jb) (Some EOther) (out jb) (sets jb)) false)
+        | _ => None end)
+  | LSpawnEnter j =>
+      on_job st j (fun jb => match wpc jb with
+        | WStarted =>
+            if creq jb
+            then Some (set_w jb WFinally (proc jb) (if refusal_caught then Some EOther else exc jb) (out jb) (sets jb))
+            else Some (set_slock (set_w jb WSpawn (proc jb) (exc jb) (out jb) (sets jb)) true)
         | _ => None end)
   | LExit j =>
       on_job st j (fun jb => match proc jb with
@@ -237,7 +264,7 @@ Definition step (st : state) (l : label) : option state :=
         | _ => None end)
   | LFinally j =>
       on_job st j (fun jb => match wpc jb with
-        | WFinally => let jb' := kill jb in
+        | WFinally => let jb' := fin jb in
                       (* an exception of cancel() leaves the finally block before set_result,
                          unless the call is protected *)
                       if kill_raises jb && negb gen_finally_guarded
@@ -264,7 +291,7 @@ Definition step (st : state) (l : label) : option state :=
         | DCancel pend =>
             match remove1 j pend with
             | Some pend' =>
-                match on_job st j (fun jb => Some (kill jb)) with
+                match on_job st j (fun jb => if slock jb then None else Some (cancel jb)) with
                 | Some st' => Some (mkSd (swait s) (DCancel pend'), st')
                 | None => None
                 end
@@ -304,7 +331,7 @@ Definition all_labels (st : state) : list label :=
   let ks := seq 0 (length (sds st)) in
   flat_map (fun j =>
     [LSubCheck j; LSubAcquire j; LSubRecheck j; LSubUnlock j; LSubAppend j; LSubStart j; LSubRelease j; LSubWait j;
-     LPopen j true; LPopen j false; LExit j;
+     LSpawnEnter j; LPopen j true; LPopen j false; LExit j;
      LCommRet j AUnsat; LCommRet j ASat; LCommRet j AUnknown; LCommRet j AGarbage;
      LCommTimeout j; LCommExc j; LFinally j; LSetResult j]) js
   ++ flat_map (fun k =>
@@ -321,7 +348,7 @@ Definition rank_spc (p : spc_t) : nat :=
   match p with SCheck => 7 | SAcquire => 6 | SRecheck => 5 | SAppend => 4 | SStart => 3 | SRelease => 2
              | SWait => 1 | SGot _ => 0 | SUnlock => 1 | SRejected => 0 end.
 Definition rank_wpc (w : wpc_t) : nat :=
-  match w with WNew => 10 | WStarted => 8 | WComm => 6 | WFinally => 4 | WSetRes => 2 | WDone => 0 | WDead => 0 end.
+  match w with WNew => 12 | WStarted => 10 | WSpawn => 8 | WComm => 6 | WFinally => 4 | WSetRes => 2 | WDone => 0 | WDead => 0 end.
 Definition rank_proc (p : proc_t) : nat := match p with PRun => 1 | _ => 0 end.
 Definition rank_job (jb : job) : nat := rank_spc (spc jb) + rank_wpc (wpc jb) + rank_proc (proc jb).
 Definition pre_append (jb : job) : nat :=
